@@ -316,7 +316,7 @@ def instantiate(template_path, repo_root):
                     raise ExtractError('%s:%d with outside rewrite' % (unit, tl[i][2]))
                 blk.with_lines = []
                 in_with = True
-            elif cmd == 'unit' or cmd == '':
+            elif cmd in ('unit', 'rlimit') or cmd == '':
                 pass
             else:
                 raise ExtractError('%s:%d unknown directive %s' % (unit, tl[i][2], cmd))
